@@ -66,7 +66,7 @@ class Runner:
 
     def _make_policy(self, seed: int, scale: float = 1.0):
         if self.ptype == "table_ac":
-            return SimTablePolicy(self.env0, gen_policy_tables(random.Random(seed), NS=self.NS, kind=self.kind, comps=self.comps))
+            return SimTablePolicy(self.env0, gen_policy_tables(random.Random(seed), NS=self.NS, kind=self.kind, comps=self.comps), use_probs=bool(self.cls.get("use_probs", False)))
         if self.ptype == "qtable":
             return SimQTable(self.env0, np.zeros((self.NS, self.comps[0])), epsilon=self.cls["epsilon"])
         if self.ptype == "mlp_ac":
@@ -128,7 +128,7 @@ class Runner:
         plan = {"scenario": NAME, "cls": cls, "world": tables, "ops": [{"op": "walk", "key": rng.getrandbits(31)} for _ in range(rng.randint(1, 3))], "faults": []}
         if self.ptype == "table_ac":
             plan["policy"] = gen_policy_tables(rng, NS=self.NS, kind=self.kind, comps=self.comps)
-            if rng.random() < 0.3:  # huge gaps
+            if rng.random() < 0.3 and not self.cls.get("use_probs"):  # huge gaps (probabilities would underflow to exact zeros)
                 plan["policy"]["logits"] = [[rng.choice([-30.0, 0.0, 30.0]) for _ in row] for row in plan["policy"]["logits"]]
         elif self.ptype == "qtable":
             style = rng.choice(["distinct", "ties", "huge"])
